@@ -11,7 +11,7 @@
    - block difficulties below 2^192 (a header above cannot pass the PoW check). *)
 From Coq Require Import NArith List.
 From LC Require Import Matching Difficulty LastStateProof MatchingProofs DifficultyProofs2 LastStateProofProofs ExecPanicProofs HashesUpdate HashesUpdateProofs.
-From LC Require Filters FiltersChecked FiltersPanicProofs.
+From LC Require Filters FiltersChecked FiltersPanicProofs CheckPoints CheckPointsChecked CheckPointsPanicProofs.
 Import ListNotations.
 Open Scope N_scope.
 
@@ -103,3 +103,26 @@ Example C10_block_filters_range_example :
   FiltersPanicProofs.in_range (Filters.mkFW [(1, 0)] (Some (Some 7)) 2003 false true 2000 3 33 1 [41; 42; 43; 44] (Some 40) [51] [] [])
            (Filters.mkMsg 2004 [1; 2] [8; 9]).
 Proof. constructor; [reflexivity | vm_compute; discriminate | vm_compute; discriminate | vm_compute; discriminate | reflexivity | intros _; discriminate]. Qed.
+
+(* the BlockFilterCheckPoints handler (filter protocol): Model/CheckPointsChecked.v writes the `%`, the u64 products and sums, the
+   `count - 1` and the two vector indexings of CheckPoints::add_check_points as the checked operations they are.  For every
+   message (any start number, any list of check points) the handler returns, provided the peer's OWN vector is within range:
+   positive interval, non-empty (it is created with one entry and never emptied), ending below 2^62 / interval.  There the
+   checked model is the model the C07 theorems are about. *)
+Theorem C10_check_points_never_panics :
+  forall interval c last_proved start new,
+    CheckPointsPanicProofs.cp_range interval c new ->
+    is_panic (CheckPointsChecked.add_check_points_chk interval c last_proved start new) = false.
+Proof. exact CheckPointsPanicProofs.check_points_never_panics. Qed.
+Print Assumptions C10_check_points_never_panics.
+
+Theorem C10_check_points_checked_model_is_the_C07_model :
+  forall interval c last_proved start new,
+    CheckPointsPanicProofs.cp_range interval c new ->
+    CheckPointsChecked.add_check_points_chk interval c last_proved start new = CheckPoints.add_check_points interval c last_proved start new.
+Proof. exact CheckPointsPanicProofs.add_check_points_chk_eq. Qed.
+Print Assumptions C10_check_points_checked_model_is_the_C07_model.
+
+Example C10_check_points_range_example :
+  CheckPointsPanicProofs.cp_range 2000 (CheckPoints.mkCps 3 [11; 12]) [12; 13; 14].
+Proof. constructor; [reflexivity | discriminate | vm_compute; discriminate]. Qed.
